@@ -6,8 +6,11 @@ import HpoModel.Linkage
       clusters the singleton sets {t_0}, …, {t_{n-1}} (distinct terms of the ontology in <slot>).
       <table> = n(n−1)/2 naturals < 2^24, the distances of the pairs (i,j), i<j, in lexicographic
       order.  The distance callback (the same on both sides):
-        both sets singletons {x},{y}  -> the table entry of the pair of positions of x and y
-        otherwise                     -> `mix A B` of the two sorted id vectors (see below)
+        both sets are (different) input sets -> the table entry of the pair of their positions
+        otherwise                            -> `mix A B` of the two sorted id vectors (see below)
+  linkm <method> <slot> <sets s_0|…|s_{n-1}> <table>
+      the same for input sets of several terms each (ascending ids, sets pairwise different; they may
+      overlap, so that the union of two clusters is smaller than the sum of their sizes)
       prints  `LINK <method> n=<n> merges=<m>`, per merge `M <lhs> <rhs> b32:<distance bits> <size>`
               (compared exactly: the model runs the same IEEE binary32 operations),
               `IDX <indicies()>`, per callback call `CB <#pairs> <A/B> …`, and `oracle ok`
@@ -26,19 +29,24 @@ def mixStep (h x : Nat) : Nat := (h * 31 + x) % 8388593
 def mix (a b : List Nat) : Nat :=
   (b.foldl mixStep (mixStep (a.foldl mixStep 7) 1000003)) + 1
 
-def cbDist (ids : List Nat) (table : Array Nat) (a b : List Nat) : Float32 :=
-  match a, b with
-  | [x], [y] =>
-    let i := ids.idxOf x
-    let j := ids.idxOf y
-    let n := ids.length
+def cbDist (inputs : List (List Nat)) (table : Array Nat) (a b : List Nat) : Float32 :=
+  let i := inputs.idxOf a
+  let j := inputs.idxOf b
+  let n := inputs.length
+  if i < n ∧ j < n ∧ i ≠ j then
     let v := table.getD (if i < j then pairIndex n i j else pairIndex n j i) 0
-    -- entries from 2^25 on are the bit pattern of the distance (distances a few ulps apart)
-    -- entries in (2^24, 2^25) are the bit pattern + 2^24 (subnormal distances)
+    -- entries from 2^25 on are the bit pattern of the distance (distances a few ulps apart, negative
+    -- distances, +infinity); entries in (2^24, 2^25) are the bit pattern + 2^24 (subnormal distances)
     if v ≥ 2 ^ 25 then Float32.ofBits v.toUInt32
     else if v > 2 ^ 24 then Float32.ofBits (v - 2 ^ 24).toUInt32
     else Float32.ofNat v
-  | _, _ => Float32.ofNat (mix a b)
+  else Float32.ofNat (mix a b)
+
+/-- `1,2|3|2,4` -> `[[1,2],[3],[2,4]]` -/
+def parseSets (s : String) : Option (List (List Nat)) :=
+  (s.splitOn "|").foldr (fun t acc => match parseIds t, acc with
+    | some n, some l => some (n :: l)
+    | _, _ => none) (some [])
 
 def parseMethod (s : String) : Option Method :=
   if s = "union" then some .union else if s = "single" then some .single
@@ -55,22 +63,28 @@ def showCluster (c : Cluster Float32) : String :=
 def f32lt (a b : Float32) : Bool := a < b
 def f32mean (a b : Float32) : Float32 := (a + b) / 2.0
 
+def runLink (s : DState) (m slot : String) (meth : Method) (inputs : List (List Nat)) (table : List Nat) : Out :=
+  match slot.toNat?.bind s.slot with
+  | none => (s, ["noslot"])
+  | some _ =>
+    match cluster meth f32lt f32mean (cbDist inputs table.toArray) inputs with
+    | none => die s
+    | some st =>
+      (s, [s!"LINK {m} n={inputs.length} merges={st.clusters.length}"]
+        ++ st.clusters.map showCluster
+        ++ ["IDX " ++ showIds (indicies st.n st.clusters)]
+        ++ st.log.map showCb
+        ++ ["oracle ok"])
+
 def handleLinkage (s : DState) (toks : List String) : Option Out :=
   match toks with
   | ["link", m, slot, ids, table] =>
     match parseMethod m, parseIds ids, parseIds table with
-    | some meth, some ids, some table =>
-      match slot.toNat?.bind s.slot with
-      | none => some (s, ["noslot"])
-      | some _ =>
-        match cluster meth f32lt f32mean (cbDist ids table.toArray) (ids.map fun x => [x]) with
-        | none => some (die s)
-        | some st =>
-          some (s, [s!"LINK {m} n={ids.length} merges={st.clusters.length}"]
-            ++ st.clusters.map showCluster
-            ++ ["IDX " ++ showIds (indicies st.n st.clusters)]
-            ++ st.log.map showCb
-            ++ ["oracle ok"])
+    | some meth, some ids, some table => some (runLink s m slot meth (ids.map fun x => [x]) table)
+    | _, _, _ => none
+  | ["linkm", m, slot, sets, table] =>
+    match parseMethod m, parseSets sets, parseIds table with
+    | some meth, some inputs, some table => some (runLink s m slot meth inputs table)
     | _, _, _ => none
   | _ => none
 
